@@ -138,9 +138,10 @@ class CommonGenerator(mmgen.Generator):
     * ``len(<bytearray>)`` only if ``bytes_len`` (the Java transpiler refuses it),
     * classes with more than one base get a docstring (without one the Java generator
       dies in ``_generate_interface`` with a ``Stripped`` contract violation),
-    * constants of primitive type, constant sets of integers and (through the profile)
-      ``float`` properties only if ``java_hostile`` (the emitted ``Constants.java`` /
-      ``Jsonization.java`` do not compile for them, see proposals/C09.md).
+    * ``int`` and ``float`` (properties, constrained primitives, verification functions
+      over them), constants of primitive type and constant sets of integers only if
+      ``java_hostile`` (the emitted ``Jsonization.java`` / ``Xmlization.java`` /
+      ``Constants.java`` do not compile for them, see proposals/C09.md).
     """
 
     bytes_len = False
@@ -151,11 +152,26 @@ class CommonGenerator(mmgen.Generator):
         if not self.java_hostile:
             self.m.consts = [c for c in self.m.consts if c.kind in ("set_str", "set_enum")]
 
+    def gen_funcs(self) -> None:
+        super().gen_funcs()
+        if not self.java_hostile:
+            self.m.funcs = [
+                f for f in self.m.funcs
+                if not (f.kind == "transpilable" and f.args[0][1] in ("int", "float"))
+            ]
+
+    def gen_cprims(self) -> None:
+        super().gen_cprims()
+        if not self.java_hostile:
+            self.m.cprims = [c for c in self.m.cprims if c.prim not in ("int", "float")]
+
     def random_type(self, cls_index: int) -> mmgen.T:
         for _ in range(50):
             t = super().random_type(cls_index)
             core = t.inner if t.kind == "optional" else t
             if core.kind == "list" and core.inner.kind != "cls":
+                continue
+            if not self.java_hostile and core.kind == "prim" and core.name in ("int", "float"):
                 continue
             return t
         return mmgen.T("prim", "str")
@@ -312,15 +328,19 @@ class Facts:
         return self.kind_of(t) if t is not None else "unknown"
 
 
-def strip_unknown_properties(facts: Facts, cls: str, doc: Any) -> Any:
+def javascript_view(facts: Facts, cls: str, doc: Any) -> Any:
     """
-    Copy of ``doc`` without the object members that are no JSON property of the class
-    declared at their place (``modelType`` is kept).
+    The document as a JavaScript program can see it (two documented design limits):
 
-    The generated TypeScript de-serialiser ignores such members on purpose (NOTE in the
-    emitted ``*FromJsonableWithoutDispatch``: "we ignore properties which we do not know
-    how to de-serialize"), so its verdict is compared with the Python verdict on the
-    stripped document.
+    * ``JSON.parse`` does not tell ``1`` from ``1.0``: where the meta-model declares a
+      ``float`` an integer is read as that float, and where it declares an ``int`` an
+      integral float (within +-2^53) is read as that integer;
+    * the generated TypeScript de-serialiser ignores object members it does not know
+      (NOTE in the emitted ``*FromJsonableWithoutDispatch``: "we ignore properties which
+      we do not know how to de-serialize"); ``modelType`` is kept.
+
+    The TypeScript verdict on a document is compared with the Python verdict on this
+    view of it.
     """
     pm = facts.pm
 
@@ -332,7 +352,17 @@ def strip_unknown_properties(facts: Facts, cls: str, doc: Any) -> Any:
             if isinstance(value, list):
                 return [visit(v, core.inner) for v in value]
             return value
-        if core.kind != "atomic" or not pm.is_class(core.name) or not isinstance(value, dict):
+        if core.kind != "atomic":
+            return value
+        prim = pm.primitive_of(core.name)
+        if prim == "float" and isinstance(value, int) and not isinstance(value, bool):
+            return float(value)
+        if (
+            prim == "int" and isinstance(value, float) and math.isfinite(value)
+            and value == int(value) and abs(value) <= MAX_SAFE
+        ):
+            return int(value)
+        if not pm.is_class(core.name) or not isinstance(value, dict):
             return value
         target = core.name
         if isinstance(value.get("modelType"), str):
@@ -349,7 +379,7 @@ def strip_unknown_properties(facts: Facts, cls: str, doc: Any) -> Any:
     return visit(doc, pyexec.TypeRef("atomic", cls))
 
 
-B64_STRICT = re.compile(r"^(?:[A-Za-z0-9+/]{4})*(?:[A-Za-z0-9+/]{2}==|[A-Za-z0-9+/]{3}=)?$")
+B64_STRICT = re.compile(r"(?:[A-Za-z0-9+/]{4})*(?:[A-Za-z0-9+/]{2}==|[A-Za-z0-9+/]{3}=)?")
 
 
 def supplied_kind(value: Any, declared: str) -> str:
@@ -363,7 +393,7 @@ def supplied_kind(value: Any, declared: str) -> str:
         return "integral-float" if value == int(value) else "float"
     if isinstance(value, str):
         if declared.endswith("bytes"):
-            return "base64" if B64_STRICT.match(value) else "non-base64-str"
+            return "base64" if B64_STRICT.fullmatch(value) else "non-base64-str"
         if any(0xD800 <= ord(ch) <= 0xDFFF for ch in value):
             return "str-with-lone-surrogate"
         return "str"
@@ -727,18 +757,30 @@ def run_java(
         failures.append(output[-6000:])
         # Work-arounds so that the JSON leg can go on *after* the diagnostics have been
         # recorded as a build failure (they are reported by the check either way):
-        #  * a model without enumerations: the emitted sources import the package
-        #    ``<package>.types.enums`` which does not exist -> add an empty package;
+        #  * a model without enumerations (or without constants): the emitted sources
+        #    import ``<package>.types.enums.*`` (``<package>.constants.Constants``) which
+        #    does not exist -> add a placeholder class;
         #  * units the JSON leg does not need (XML, the constant tables) are left out.
-        enums_dir = src / package.replace(".", "/") / "types" / "enums"
         broken = set(re.findall(r"([A-Za-z_0-9]+\.java):[0-9]+: error", output))
-        if f"package {package}.types.enums does not exist" in output and not enums_dir.exists():
-            enums_dir.mkdir(parents=True)
-            (enums_dir / "package-info.java").write_text(
-                f"package {package}.types.enums;\n", encoding="utf-8"
-            )
-            sources.append(str(enums_dir / "package-info.java"))
-            res.excluded_units.append("+types/enums/package-info.java")
+        absent = set()
+        for pkg in re.findall(r"error: package (\S+) does not exist", output):
+            if pkg.startswith(package + "."):
+                # which names are imported from it?
+                for name in re.findall(r"import " + re.escape(pkg) + r"\.([A-Za-z_0-9*]+);", output):
+                    absent.add((pkg, "C09Placeholder" if name == "*" else name))
+        created = False
+        for pkg, name in sorted(absent):
+            path = src / pkg.replace(".", "/") / f"{name}.java"
+            if path.exists():
+                continue
+            path.parent.mkdir(parents=True, exist_ok=True)
+            access = "final" if name == "C09Placeholder" else "public final"
+            path.write_text(f"package {pkg};\n\n{access} class {name} {{}}\n", encoding="utf-8")
+            sources.append(str(path))
+            res.excluded_units.append(f"+{pkg[len(package) + 1:]}.{name}")
+            created = True
+        if created:
+            pass
         elif broken and broken <= JAVA_OPTIONAL_UNITS:
             res.excluded_units.extend(sorted(broken))
             sources = [p for p in sources if os.path.basename(p) not in broken]
@@ -838,8 +880,12 @@ def cpp_driver_source(facts: Facts, namespace: str, prefix: str) -> str:
                 f"common::optional<{inner} >({expr(t.inner, node)}))"
             )
         if t.kind == "list":
-            assert t.inner.kind == "atomic" and pm.is_class(t.inner.name), "lists of classes only"
-            return f"BuildList<types::{names.call('interface_name', t.inner.name)}>({node})"
+            if t.inner.kind == "atomic" and pm.is_class(t.inner.name):
+                return f"BuildList<types::{names.call('interface_name', t.inner.name)}>({node})"
+            return (
+                f"[&]() {{ {ctype(t)} items; for (const Node& item : {node}.items) "
+                f"items.push_back({expr(t.inner, 'item')}); return items; }}()"
+            )
         prim = pm.primitive_of(t.name)
         if prim is not None:
             return {
